@@ -134,8 +134,8 @@ def parse_snapshot(s):
     L = lambda x: [int(y) for y in x.split(',') if y.strip()]
     for m in re.finditer(r'W(\d+)g(\d+):a=(\d),q=\[([\d, ]*)\],in=\[([\d, ]*)\],owed=\[([\d, ]*)\],cnt=(\d+)', s):
         d['workers'].append(dict(idx=int(m.group(1)), gen=int(m.group(2)), alive=m.group(3) == '1', q=L(m.group(4)), ins=L(m.group(5)), owed=L(m.group(6)), cnt=int(m.group(7))))
-    for m in re.finditer(r'L(\d+):reg=(\d),bl=(\d+),dl=(\S+?),link=(-?\d+),tok=(\d+)', s):
-        d['listeners'].append(dict(l=int(m.group(1)), reg=m.group(2) == '1', bl=int(m.group(3)), dl=None if m.group(4) == 'none' else int(m.group(4)), link=int(m.group(5)), tok=int(m.group(6))))
+    for m in re.finditer(r'L(\d+):reg=(\d),bl=(\d+),dl=(\S+?),link=(-?\d+),tok=(\d+),acc=(\d+)', s):
+        d['listeners'].append(dict(l=int(m.group(1)), reg=m.group(2) == '1', bl=int(m.group(3)), dl=None if m.group(4) == 'none' else int(m.group(4)), link=int(m.group(5)), tok=int(m.group(6)), acc=int(m.group(7))))
     m = re.search(r'cmd=\[([^\]]*)\] clock=(\d+) fin=\[([\d, ]*)\] lost=\[([\d, ]*)\]', s)
     d.update(cmd=[x for x in m.group(1).split(',') if x], clock=int(m.group(2)), fin=L(m.group(3)), lost=L(m.group(4)))
     return d
@@ -150,7 +150,7 @@ def judge(trace, tokens, limit):
     snaps = [parse_snapshot(p) for p in parts[:-1]]
     turns, _ = to_turns(tokens)
     faulted = False; prev = None; stopped = False
-    disp_prev = 0; deaths = {}; replaced = {}
+    disp_prev = 0; deaths = {}; replaced = {}; dropped_ok = set()
     for k, sn in enumerate(snaps):
         ops_before = turns[k - 1][0] if k >= 1 and k - 1 < len(turns) else []
         evs_before = turns[k - 1][1] if k >= 1 and k - 1 < len(turns) else []
@@ -214,5 +214,11 @@ def judge(trace, tokens, limit):
             for sid in wk['q'] + wk['ins'] + wk['owed']: places.setdefault(sid, []).append(wk['idx'])
         for sid in sn['fin'] + sn['lost']: places.setdefault(sid, []).append('done')
         if any(len(v) > 1 for v in places.values()): bad.add('C01/connection_dispatched_at_most_once')
+        for ls in sn['listeners']:
+            for k in range(ls['acc']):
+                sid = 1000 * (ls['l'] + 1) + k
+                if sid in places or sid in dropped_ok: continue
+                if not sn['H']: dropped_ok.add(sid); continue      # no worker handle left: dropping is allowed
+                bad.add('C01/accepted_connection_is_never_silently_discarded')
         prev = sn
     return bad
